@@ -114,7 +114,7 @@ impl Scenario {
 }
 
 /// Expands (property, tier, per-run seed) into a scenario. All randomness ends here.
-pub fn generate(prop: &str, tier: Tier, rng: &mut Rng) -> Scenario {
+pub fn generate(prop: &str, tier: Tier, rng: &mut Rng, index: u64) -> Scenario {
     let big = tier == Tier::Thorough;
     match prop {
         "C06" if rng.chance(1, if big { 150 } else { 400 }) => Scenario::RoundTrip(RoundTrip::generate_large(rng, big)),
@@ -147,6 +147,8 @@ pub fn generate(prop: &str, tier: Tier, rng: &mut Rng) -> Scenario {
             }
         },
         "C12" => Scenario::Writer(Writer::generate(rng, false, big)),
+        // Directed, by position in the batch (the seed still chooses its shape): one giant per quick run.
+        "C13" if index % (if big { 4000 } else { 100_000 }) == 5 => Scenario::MapViews(MapViews::generate_giant(rng)),
         "C13" => { let max_len = if rng.chance(1, 12) { 24_000 } else if big { 1500 } else { 300 }; Scenario::MapViews(MapViews::generate(rng, max_len, false)) },
         "C18" => Scenario::MapLife(MapLife::generate(rng, big)),
         "C20" => Scenario::NameVolume(NameVolume::generate(rng, big)),
